@@ -1,6 +1,25 @@
 ALL = ["C%02d" % i for i in range(1, 21)]
 
 CLAIMED = {
+    "C03": dict(
+        text="PARTIAL. A reference semantics of the vm.StateDB interface in Lean (GethSpec: copy-on-snapshot transaction state over a "
+             "persisted base) is validated on every run against upstream go-ethereum's real core/state.StateDB and compared with "
+             "Nibiru's real StateDB on identical generated call sequences (three-way, line by line); generated multi-frame bytecode "
+             "programs are executed through Nibiru's msg server and through go-ethereum's core.ApplyMessage on go-ethereum's state and "
+             "compared per transaction (VM error, return data, gas used after refunds, logs) and per account (nonce, code, balance, "
+             "storage). Theorems: over the reference semantics, RevertToSnapshot after ANY sequence of ordinary calls restores the "
+             "transaction state exactly and never touches the persisted state or older snapshots (all call sequences, by induction); "
+             "over the model of Nibiru's journal, every entry's Revert is the exact inverse of the mutation that appended it (refund "
+             "add/sub, logs, balance, nonce, code, storage, self-destruct of a cached object); ApplyEvmMsg's EIP-3529 refund equals "
+             "go-ethereum's for all inputs and never exceeds a fifth of the gas used.",
+        note="NOT proved: the simulation between the model of Nibiru's StateDB (lazy loading, origin caching, dirty counts) and the "
+             "reference semantics for arbitrary call sequences — their observational equality is established by the correspondence "
+             "runs only. Trusted: Lean kernel; the interpreter (same code on both sides); harness; GethSpec's fidelity to go-ethereum "
+             "is itself validated by differential execution, not proved. Precompile calls are excluded here (C04/C08).",
+        technique="Lean 4 proof (induction over call sequences on the reference semantics; per-entry journal inverse lemmas) + three-way "
+                  "differential correspondence (Lean spec / real go-ethereum StateDB / real Nibiru StateDB) + EVM-level differential "
+                  "execution against go-ethereum's state transition",
+        ref="§7 C03"),
     "C06": dict(
         text="Lean 4 theorems over an executable model of the FunToken registry and of every flow that moves value between the bank "
              "side and the ERC20 side (CreateFunToken from coin / from ERC20 with both duplicate checks, MsgConvertCoinToEvm in both "
